@@ -87,6 +87,13 @@ def gen_solve(draw, tier="quick"):
                 cfg["mean_val"] = float(cfg["mean_val"] * u)
             case["unit"] = u
     case["chunk"] = draw(st.sampled_from([None, None, 1, 2, 3]))
+    c2 = case["cfg"]
+    if (not spec.get("latlon") and c2["geo"] == "euclid" and c2.get("norm", "None") == "None" and c2.get("trend", "none") == "none" and c2.get("mean", "none") in ("none", "const")
+            and not kc.has_functional_drift(c2) and not c2.get("n_ext", 0) and "unit" not in case and draw(st.integers(0, 5)) == 0):
+        # one large request in map-like coordinates: all points translated far from the origin, tens of thousands of targets in one call
+        case["far"] = {"mag": draw(st.sampled_from([1e3, 1e5, 3e6])), "dir": [draw(st.sampled_from([1.0, -0.7, 0.45])) for _ in range(4)],
+                       "cells": draw(st.sampled_from([70000, 140000]))}
+        case["chunk"] = None
     case["struct"] = draw(st.booleans())
     case["only_mean"] = draw(st.sampled_from([False, False, False, True]))
     case["return_var"] = draw(st.sampled_from([True, True, False]))
@@ -133,6 +140,19 @@ def check_solve(case, rec):
         rec.label("repeated_measurement_at_one_location")
     cond_pos = np.array(case["cond_pos"], dtype=float).reshape(fdim, -1)
     pos = np.array(case["pos"], dtype=float).reshape(fdim, -1)
+    if case.get("far"):
+        fr = case["far"]
+        ls_ = max(1.0, float(spec["len_scale"]))
+        off = np.array(fr["dir"], dtype=float)[:fdim, None] * fr["mag"] * ls_
+        nfill = int(math.ceil(fr["cells"] / max(cond_pos.shape[1], 1)))
+        j_ = np.arange(1, nfill + 1, dtype=float)
+        al_ = [0.6180339887498949, 0.7548776662466927, 0.5698402909980532, 0.8191725133961645][:fdim]
+        span = 3.0 * ls_ + float(np.max(np.ptp(cond_pos, axis=1)))
+        fill = np.array([(np.mod(j_ * a_, 1.0) - 0.5) * span for a_ in al_]) + cond_pos.mean(axis=1, keepdims=True)
+        pos = np.concatenate([pos, fill], axis=1) + off
+        cond_pos = cond_pos + off
+        case = dict(case, cond_pos=cond_pos.tolist(), pos=pos.tolist())
+        rec.label("large_request_far_from_origin")
     only_mean = case["only_mean"]
     if cfg["exact"] and kc.zero_lag_ambiguous(case, pos):
         rec.exclude("target_on_edge_of_isclose_zero_window")
@@ -167,7 +187,7 @@ def check_solve(case, rec):
     require(
         err <= t,
         f"{'mean' if only_mean else 'kriging'} estimate differs from the direct solve of the kriging system by {err:.3g} "
-        f"(tol {t:.3g}, cond {cnd:.3g}): got {np.asarray(f).tolist()}, direct {ref['field'].tolist()}",
+        f"(tol {t:.3g}, cond {cnd:.3g}): got {np.asarray(f).ravel()[:8].tolist()}, direct {np.asarray(ref['field']).ravel()[:8].tolist()} (first entries)",
         dict(tags, kind="estimate" if not case.get("probe") else "latlon_drift_lon_wrap", only_mean=only_mean),
     )
     if with_var:
@@ -178,7 +198,7 @@ def check_solve(case, rec):
         rec.discrepancy("variance", errv, tv)
         require(
             errv <= tv,
-            f"kriging variance differs from sill - b'A^-1 b (direct solve) by {errv:.3g} (tol {tv:.3g}): got {np.asarray(res[1]).tolist()}, direct {ref['var'].tolist()}",
+            f"kriging variance differs from sill - b'A^-1 b (direct solve) by {errv:.3g} (tol {tv:.3g}): got {np.asarray(res[1]).ravel()[:8].tolist()}, direct {np.asarray(ref['var']).ravel()[:8].tolist()} (first entries)",
             dict(tags, kind="variance"),
         )
     # get_mean: generalised least squares mean for constant-mean systems
